@@ -338,6 +338,36 @@ type Node = {
   v: int
   next: array<Node>
 }
+type It = {
+  id: int
+  owner: array<It>
+}
+type Tr = leaf(int) | kids(array<Tr>) | grid(array<array<Tr>>)
+fn tr_len(t: Tr) -> int {
+  match t {
+    .kids(a) -> a.len()
+    .grid(g) -> g.len()
+    .leaf(_) -> 0 - 1
+  }
+}
+fn tr_kids(t: Tr) -> array<Tr> {
+  match t {
+    .kids(a) -> a
+    _ -> []
+  }
+}
+fn opt_push(o: option<array<int>>, k: int) -> void {
+  match o {
+    .some(z) -> z.push(k)
+    .none -> {}
+  }
+}
+fn opt_show(o: option<array<int>>) -> string {
+  match o {
+    .some(z) -> show_arrint(z)
+    .none -> "none"
+  }
+}
 "#;
 
 pub struct AliasCase {
@@ -376,7 +406,7 @@ pub fn gen_alias_capture(rng: &mut Rng, i: usize) -> AliasCase {
     let b = rng.range(0, 99);
     let k = rng.range(100, 199);
     let k2 = rng.range(200, 299);
-    match i % 6 {
+    match i % 16 {
         0 => AliasCase {
             class: "alias:two-variables",
             src: alias_program(
@@ -453,6 +483,118 @@ pub fn gen_alias_capture(rng: &mut Rng, i: usize) -> AliasCase {
                 "heapalias &0=(S {a} (A &1=(S {b} (A &0)))) | T set 0.1.0 0 {k} ; T show 0.1.0.1.0.1.0.0 ; T show 0.1.0.1.0.0 ; M set 0.1.0 0 {k2} ; M show 0.1.0.0"
             )),
         },
+        6 => AliasCase {
+            class: "cycle:array-root-ring",
+            src: alias_program(
+                &format!("let ring: array<It> = []\nring.push(It({a}, ring))\n"),
+                &format!("ring.push(It({k}, []))\nlet s1 = show_int(ring[0].owner.len())\nout.write(s1)\n"),
+                1,
+                &format!("ring.push(It({k2}, []))\nring.push(It({k2}, []))\n"),
+                &["show_int(ring[0].owner.len())".into()],
+            ),
+            expected: vec!["2".into(), "3".into()],
+            model: Some(format!("heapalias &0=(A (S {a} &0)) | T pushv 0 (S {k} (A)) ; T len 0.0.1 ; M pushv 0 (S {k2} (A)) ; M pushv 0 (S {k2} (A)) ; M len 0.0.1")),
+        },
+        7 => AliasCase {
+            class: "cycle:array-root-via-variant",
+            src: alias_program(
+                "let ks: array<Tr> = []\nks.push(Tr.kids(ks))\n",
+                &format!("ks.push(Tr.leaf({k}))\nlet s1 = show_int(tr_len(ks[0]))\nout.write(s1)\n"),
+                1,
+                &format!("ks.push(Tr.leaf({k2}))\nks.push(Tr.leaf({k2}))\n"),
+                &["show_int(tr_len(ks[0]))".into()],
+            ),
+            expected: vec!["2".into(), "3".into()],
+            model: Some(format!("heapalias &0=(A (V 1 &0)) | T pushv 0 (V 0 {k}) ; T len 0.0.0 ; M pushv 0 (V 0 {k2}) ; M pushv 0 (V 0 {k2}) ; M len 0.0.0")),
+        },
+        8 => AliasCase {
+            class: "cycle:array-root-nested-arrays",
+            src: alias_program(
+                "let outer: array<array<Tr>> = []\nlet inner: array<Tr> = []\ninner.push(Tr.grid(outer))\nouter.push(inner)\n",
+                "let e: array<Tr> = []\nouter.push(e)\nlet s1 = show_int(tr_len(outer[0][0]))\nout.write(s1)\n",
+                1,
+                "let e2: array<Tr> = []\nouter.push(e2)\nlet e3: array<Tr> = []\nouter.push(e3)\n",
+                &["show_int(tr_len(outer[0][0]))".into()],
+            ),
+            expected: vec!["2".into(), "3".into()],
+            model: Some("heapalias &0=(A (A (V 2 &0))) | T pushv 0 (A) ; T len 0.0.0.0 ; M pushv 0 (A) ; M pushv 0 (A) ; M len 0.0.0.0".to_string()),
+        },
+        9 => AliasCase {
+            class: "cycle:variant-root",
+            src: alias_program(
+                "let ks2: array<Tr> = []\nlet root = Tr.kids(ks2)\nks2.push(root)\n",
+                &format!("tr_kids(root).push(Tr.leaf({k}))\nlet s1 = show_int(tr_len(tr_kids(root)[0]))\nout.write(s1)\n"),
+                1,
+                &format!("ks2.push(Tr.leaf({k2}))\nks2.push(Tr.leaf({k2}))\n"),
+                &["show_int(tr_len(root))".into()],
+            ),
+            expected: vec!["2".into(), "3".into()],
+            model: Some(format!("heapalias &0=(V 1 (A &0)) | T pushv 0.0 (V 0 {k}) ; T len 0.0.0.0 ; M pushv 0.0 (V 0 {k2}) ; M pushv 0.0 (V 0 {k2}) ; M len 0.0")),
+        },
+        10 | 15 => {
+            // an array that is EMPTY at the spawn (literally, or popped down to nothing), grown on both sides
+            let setup = if i % 16 == 10 { "let xs: array<int> = []\n".to_string() } else { format!("let xs = [{a}, {b}]\nxs.pop()\nxs.pop()\n") };
+            AliasCase {
+                class: if i % 16 == 10 { "empty:direct" } else { "empty:popped" },
+                src: alias_program(
+                    &setup,
+                    &format!("xs.push({k})\nxs.push({})\nlet s1 = show_arrint(xs)\nout.write(s1)\n", k + 1),
+                    1,
+                    &format!("xs.push({k2})\n"),
+                    &["show_arrint(xs)".into()],
+                ),
+                expected: vec![format!("(A {k} {})", k + 1), format!("(A {k2})")],
+                model: Some(format!("heapalias (A) | T push 0 {k} ; T push 0 {} ; T show 0 ; M push 0 {k2} ; M show 0", k + 1)),
+            }
+        }
+        11 => AliasCase {
+            class: "empty:in-struct",
+            src: alias_program(
+                &format!("let t = Two([], [{a}])\n"),
+                &format!("t.p.push({k})\nlet s1 = show_arrint(t.p)\nout.write(s1)\n"),
+                1,
+                &format!("t.p.push({k2})\nt.p.push({k2})\n"),
+                &["show_arrint(t.p)".into()],
+            ),
+            expected: vec![format!("(A {k})"), format!("(A {k2} {k2})")],
+            model: Some(format!("heapalias (S (A) (A {a})) | T push 0.0 {k} ; T show 0.0 ; M push 0.0 {k2} ; M push 0.0 {k2} ; M show 0.0")),
+        },
+        12 => AliasCase {
+            class: "empty:in-tuple",
+            src: alias_program(
+                &format!("let em: array<int> = []\nlet tp = ({a}, em)\n"),
+                &format!("let (n, arr) = tp\narr.push({k})\nlet s1 = show_arrint(arr)\nout.write(s1)\n"),
+                1,
+                &format!("em.push({k2})\n"),
+                &["show_arrint(em)".into()],
+            ),
+            expected: vec![format!("(A {k})"), format!("(A {k2})")],
+            model: Some(format!("heapalias (S {a} (A)) | T push 0.1 {k} ; T show 0.1 ; M push 0.1 {k2} ; M show 0.1")),
+        },
+        13 => AliasCase {
+            class: "empty:in-enum-payload",
+            src: alias_program(
+                "let em: array<int> = []\nlet o = option.some(em)\n",
+                &format!("opt_push(o, {k})\nlet s1 = opt_show(o)\nout.write(s1)\n"),
+                1,
+                &format!("em.push({k2})\n"),
+                &["show_arrint(em)".into()],
+            ),
+            expected: vec![format!("(A {k})"), format!("(A {k2})")],
+            model: Some(format!("heapalias (V 0 (A)) | T push 0.0 {k} ; T show 0.0 ; M push 0.0 {k2} ; M show 0.0")),
+        },
+        14 => AliasCase {
+            class: "empty:in-closures",
+            src: alias_program(
+                "let em: array<int> = []\nlet addk = (x) -> em.push(x)\nlet cnt = () -> em.len()\n",
+                &format!("addk({k})\naddk({k})\nlet s1 = show_int(cnt())\nout.write(s1)\n"),
+                1,
+                &format!("em.push({k2})\n"),
+                &["show_int(em.len())".into()],
+            ),
+            expected: vec!["2".into(), "1".into()],
+            model: Some(format!("heapalias (S 0 &0=(A)) (S 0 &0) | T push 0.1 {k} ; T push 0.1 {k} ; T len 1.1 ; M push 0.1 {k2} ; M len 0.1")),
+        },
         _ => AliasCase {
             class: "alias:same-box-twice-in-array",
             src: alias_program(
@@ -496,7 +638,7 @@ pub fn gen_alias_channel(rng: &mut Rng, i: usize) -> AliasCase {
         s.push_str("ack.write(true)\n");
         s
     };
-    match i % 4 {
+    match i % 9 {
         0 => AliasCase {
             class: "chan:same-box-twice-in-array",
             src: chan(
@@ -538,6 +680,76 @@ pub fn gen_alias_channel(rng: &mut Rng, i: usize) -> AliasCase {
             ),
             expected: vec![format!("(A {a} {k})"), format!("(A {a} {k2})")],
             model: Some(format!("heapalias (S &0=(A {a}) &0) | T push 0.0 {k} ; T show 0.1 ; M push 0.0 {k2} ; M show 0.1")),
+        },
+        3 => AliasCase {
+            class: "chan:array-root-ring",
+            src: chan(
+                "array<It>",
+                &format!("let ring: array<It> = []\nring.push(It({a}, ring))\n"),
+                "c.write(ring)\n",
+                &format!("let x = c.read()\ngot.write(true)\nx.push(It({k}, []))\nlet s1 = show_int(x[0].owner.len())\nout.write(s1)\n"),
+                1,
+                &format!("ring.push(It({k2}, []))\nring.push(It({k2}, []))\n"),
+                &["show_int(ring[0].owner.len())".into()],
+            ),
+            expected: vec!["2".into(), "3".into()],
+            model: Some(format!("heapalias &0=(A (S {a} &0)) | T pushv 0 (S {k} (A)) ; T len 0.0.1 ; M pushv 0 (S {k2} (A)) ; M pushv 0 (S {k2} (A)) ; M len 0.0.1")),
+        },
+        4 => AliasCase {
+            class: "chan:array-root-via-variant",
+            src: chan(
+                "array<Tr>",
+                "let ks: array<Tr> = []\nks.push(Tr.kids(ks))\n",
+                "c.write(ks)\n",
+                &format!("let x = c.read()\ngot.write(true)\nx.push(Tr.leaf({k}))\nlet s1 = show_int(tr_len(x[0]))\nout.write(s1)\n"),
+                1,
+                &format!("ks.push(Tr.leaf({k2}))\nks.push(Tr.leaf({k2}))\n"),
+                &["show_int(tr_len(ks[0]))".into()],
+            ),
+            expected: vec!["2".into(), "3".into()],
+            model: Some(format!("heapalias &0=(A (V 1 &0)) | T pushv 0 (V 0 {k}) ; T len 0.0.0 ; M pushv 0 (V 0 {k2}) ; M pushv 0 (V 0 {k2}) ; M len 0.0.0")),
+        },
+        5 => AliasCase {
+            class: "chan:array-root-nested-arrays",
+            src: chan(
+                "array<array<Tr>>",
+                "let outer: array<array<Tr>> = []\nlet inner: array<Tr> = []\ninner.push(Tr.grid(outer))\nouter.push(inner)\n",
+                "c.write(outer)\n",
+                "let x = c.read()\ngot.write(true)\nlet e: array<Tr> = []\nx.push(e)\nlet s1 = show_int(tr_len(x[0][0]))\nout.write(s1)\n",
+                1,
+                "let e2: array<Tr> = []\nouter.push(e2)\nlet e3: array<Tr> = []\nouter.push(e3)\n",
+                &["show_int(tr_len(outer[0][0]))".into()],
+            ),
+            expected: vec!["2".into(), "3".into()],
+            model: Some("heapalias &0=(A (A (V 2 &0))) | T pushv 0 (A) ; T len 0.0.0.0 ; M pushv 0 (A) ; M pushv 0 (A) ; M len 0.0.0.0".to_string()),
+        },
+        6 => AliasCase {
+            class: "chan:variant-root",
+            src: chan(
+                "Tr",
+                "let ks2: array<Tr> = []\nlet root = Tr.kids(ks2)\nks2.push(root)\n",
+                "c.write(root)\n",
+                &format!("let x = c.read()\ngot.write(true)\ntr_kids(x).push(Tr.leaf({k}))\nlet s1 = show_int(tr_len(tr_kids(x)[0]))\nout.write(s1)\n"),
+                1,
+                &format!("ks2.push(Tr.leaf({k2}))\nks2.push(Tr.leaf({k2}))\n"),
+                &["show_int(tr_len(root))".into()],
+            ),
+            expected: vec!["2".into(), "3".into()],
+            model: Some(format!("heapalias &0=(V 1 (A &0)) | T pushv 0.0 (V 0 {k}) ; T len 0.0.0.0 ; M pushv 0.0 (V 0 {k2}) ; M pushv 0.0 (V 0 {k2}) ; M len 0.0")),
+        },
+        7 => AliasCase {
+            class: "chan:empty-array",
+            src: chan(
+                "array<int>",
+                "let em: array<int> = []\n",
+                "c.write(em)\n",
+                &format!("let x = c.read()\ngot.write(true)\nx.push({k})\nlet s1 = show_arrint(x)\nout.write(s1)\n"),
+                1,
+                &format!("em.push({k2})\nem.push({k2})\n"),
+                &["show_arrint(em)".into()],
+            ),
+            expected: vec![format!("(A {k})"), format!("(A {k2} {k2})")],
+            model: Some(format!("heapalias (A) | T push 0 {k} ; T show 0 ; M push 0 {k2} ; M push 0 {k2} ; M show 0")),
         },
         // the same array written twice: two reads make two independent copies (a fresh map per read)
         _ => AliasCase {
